@@ -233,6 +233,7 @@ func (r *Run) Disarm() {
 // RepoFrame returns the innermost stack frame (function name) that lies in
 // keep-core production code (not a test, not the kit), from a debug.Stack().
 func RepoFrame(stack []byte) string {
+	altRepo := os.Getenv("VERIF_REPO")
 	lines := strings.Split(string(stack), "\n")
 	for i := 0; i+1 < len(lines); i++ {
 		fn := strings.TrimSpace(lines[i])
@@ -240,7 +241,7 @@ func RepoFrame(stack []byte) string {
 		if !strings.Contains(loc, ".go:") {
 			continue
 		}
-		if strings.Contains(loc, "keep-core") || strings.Contains(loc, "/repo/") {
+		if strings.Contains(loc, "keep-core") || strings.Contains(loc, "/repo/") || (altRepo != "" && strings.Contains(loc, altRepo)) {
 			if strings.Contains(loc, "_test.go") || strings.Contains(loc, "verifkit") || strings.Contains(loc, "/verif/") {
 				continue
 			}
